@@ -343,6 +343,44 @@ def emit(seed, tier, with_numpy=False):
             x = [re0] + [0.5 * (i + 1) for i in range(n - 1)]
             ops = [{"op": "radd_f", "a": 0, "c": 0.0}, {"op": "recip", "a": n}]
             jobs.append({"kind": "driver", "driver": "gradient", "x": [fbits(v) for v in x], "ops": bitsify(ops)})
+    # gradual underflow inside a driver: a callable whose intermediates are subnormal must see them exactly as the Rust
+    # closure does (a driver that switches the floating-point environment - flush-to-zero - while the callable runs would not)
+    tiny = [{"op": "mul_f", "a": 0, "c": 1e-300}, {"op": "mul_f", "a": -1, "c": 1e-10}, {"op": "add", "a": -1, "b": -1}, {"op": "mul_f", "a": -1, "c": 0.5}]
+    for drv, nin in (("first_derivative", 1), ("second_derivative", 1), ("third_derivative", 1), ("second_partial_derivative", 2), ("third_partial_derivative", 3),
+                     ("gradient", 2), ("gradient", 11), ("hessian", 2), ("hessian", 11), ("jacobian", 2), ("third_partial_derivative_vec", 3), ("partial_hessian", 2), ("partial_hessian", 6)):
+        x = [1.0 + 0.5 * i for i in range(nin)]
+        ops, nreg = [], nin
+        for t in tiny:
+            o = dict(t)
+            for k in ("a", "b"):
+                if k in o and o[k] < 0:
+                    o[k] = nreg - 1
+            ops.append(o)
+            nreg += 1
+        for i in range(1, nin):  # use every variable
+            ops.append({"op": "mul", "a": nreg - 1, "b": i})
+            nreg += 1
+        job = {"kind": "driver", "driver": drv, "x": [fbits(v) for v in x], "ops": bitsify(ops)}
+        if drv == "partial_hessian":
+            half = nin // 2
+            job["x"], job["y"] = [fbits(v) for v in x[:half]], [fbits(v) for v in x[half:]]
+            if nin == 6:
+                job["x"], job["y"] = [fbits(v) for v in x[:1]], [fbits(v) for v in x[1:]]
+        if drv == "jacobian":
+            job["rets"] = [nreg - 1, nreg - 2]
+        if drv == "third_partial_derivative_vec":
+            job["ijk"] = [0, 1, 2]
+        jobs.append(job)
+        # subnormal *inputs*
+        sub = {"kind": "driver", "driver": drv, "x": [fbits(2.0 ** -1060 * (i + 1)) for i in range(nin)], "ops": bitsify([{"op": "add", "a": 0, "b": nin - 1}, {"op": "mul_f", "a": nin, "c": 0.5}])}
+        for k in ("y", "rets", "ijk"):
+            if k in job:
+                sub[k] = job[k]
+        if drv == "partial_hessian":
+            sub["x"], sub["y"] = sub["x"][:len(job["x"])], sub["x"][len(job["x"]):]
+        if drv == "jacobian":
+            sub["rets"] = [nin, nin + 1]
+        jobs.append(sub)
     reps = 3 if tier == "quick" else 80
     for _ in range(reps):
         for drv, nin in (("first_derivative", 1), ("second_derivative", 1), ("third_derivative", 1), ("second_partial_derivative", 2), ("third_partial_derivative", 3)):
